@@ -111,7 +111,7 @@ pub fn stub_main() -> ! {
 fn source_with_padding(pad: usize) -> String {
     // the padding sits in a comment of the embedded source, so it lengthens the token string 1:1
     format!(
-        "// {}\nstruct U {{ a: vec4<f32>, m: mat4x4<f32> }};\n@group(0) @binding(0) var<uniform> u: U;\n@group(0) @binding(1) var t: texture_2d<f32>;\n@group(0) @binding(2) var s: sampler;\nconst K: f32 = 2.0;\noverride scale: f32 = 1.0;\n@vertex fn vs_main(@builtin(vertex_index) i: u32) -> @builtin(position) vec4<f32> {{ return u.m * u.a * K * scale; }}\n@fragment fn fs_main() -> @location(0) vec4<f32> {{ return textureSample(t, s, vec2<f32>(0.5)); }}\n@compute @workgroup_size(4) fn cs_main() {{ }}\n",
+        "// {}\n// text-sensitive content: 6\" grid; spacing {{ a }} b; 'q' \\n c:\\dir {{ }} ; \"x; y\" }} z\nstruct U {{ a: vec4<f32>, m: mat4x4<f32> }};\n@group(0) @binding(0) var<uniform> u: U;\n@group(0) @binding(1) var t: texture_2d<f32>;\n@group(0) @binding(2) var s: sampler;\nconst K: f32 = 2.0;\noverride scale: f32 = 1.0;\n@vertex fn vs_main(@builtin(vertex_index) i: u32) -> @builtin(position) vec4<f32> {{ return u.m * u.a * K * scale; }}\n@fragment fn fs_main() -> @location(0) vec4<f32> {{ return textureSample(t, s, vec2<f32>(0.5)); }}\n@compute @workgroup_size(4) fn cs_main() {{ var acc = 0u; for (var i = 0u; i < 4u; i++) {{ if i > 1u {{ acc += i; }} else {{ acc += 2u; }} }} }}\n",
         "x".repeat(pad)
     )
 }
